@@ -11,6 +11,7 @@ import (
 	"errors"
 	"fmt"
 	"io"
+	"strings"
 	"net"
 	"sync"
 	"sync/atomic"
@@ -90,7 +91,24 @@ type c11Conn struct {
 	err        string
 }
 
+// runC11 applies rule 2 of the design: a failure of this timing-sampling check is reported only if the same case
+// fails again in at least one of three further runs (a real hand-over bug recurs, because every case contains
+// many connections and several reloads; a one-off glitch of a heavily loaded host does not).
 func runC11(c C11Case, info *kit.Info) *kit.Finding {
+	f := runC11Once(c, info)
+	if f == nil || strings.HasPrefix(f.Signature, "server:") {
+		return f
+	}
+	for i := 0; i < 3; i++ {
+		if f2 := runC11Once(c, &kit.Info{}); f2 != nil {
+			return f
+		}
+	}
+	info.Inconclusive = "did not reproduce in 3 further runs: " + f.Error()
+	return nil
+}
+
+func runC11Once(c C11Case, info *kit.Info) *kit.Finding {
 	s, why := newMainSession(c.Seed)
 	if s == nil {
 		info.Skipped = why
